@@ -177,7 +177,10 @@ pub fn run(cx: &mut Cx) {
     let depth_kinds = ["nested-if", "nested-for", "nested-blocks", "nested-filter", "nested-set-block", "include-chain", "extends-chain", "extends-chain-super", "component-nesting", "include-in-block-chain"];
     let depths: Vec<usize> = if cx.tier == Tier::Quick { vec![1, 8, 16, 24, 32, 39] } else { (1..=39).collect() };
     let n_depth = (depth_kinds.len() * depths.len()) as u64;
-    let crash_families = ["block-inversion-super", "include-descendant-super", "deep-template-built-value", "deep-template-built-map", "self-component-recursion", "mutual-component-recursion", "component-recursion-through-body"];
+    let crash_families = ["block-inversion-super", "include-descendant-super", "deep-template-built-value", "deep-template-built-map", "self-component-recursion", "mutual-component-recursion", "component-recursion-through-body",
+        // recursion that alternates between kinds of nesting: every hop hands the render over to another VM, and each kind
+        // has its own counter
+        "component-recursion-through-include", "component-recursion-through-include-in-call-body", "component-recursion-through-include-and-block", "component-recursion-through-two-includes"];
     let n_crash = crash_families.len() as u64;
     let n_matrix = (EXPRS.len() + STMTS.len()) as u64;
     // (F) references that exist when first registered and vanish when their provider is replaced
@@ -359,6 +362,10 @@ pub fn run(cx: &mut Cx) {
                 "deep-template-built-map" => vec![("t", "{% set a = 1 %}{% for i in range(end=100000) %}{% set_global a = {\"k\": a} %}{% endfor %}{{ a | length }}".into())],
                 "self-component-recursion" => vec![("t", "{% component r(n) %}{{ <r n={n + 1} /> }}{% endcomponent %}{{ <r n={0} /> }}".into())],
                 "mutual-component-recursion" => vec![("t", "{% component a() %}{{ <b /> }}{% endcomponent %}{% component b() %}{% <a> %}x{% </a> %}{% endcomponent %}{{ <a /> }}".into())],
+                "component-recursion-through-include" => vec![("t", "{% component r(n=0) %}[{{ n }}{% include \"i\" %}]{% endcomponent %}{{ <r /> }}".into()), ("i", "{{ <r n={1} /> }}".into())],
+                "component-recursion-through-include-in-call-body" => vec![("t", "{% component w() %}{{ body }}{% endcomponent %}{% component r() %}{% <w> %}{% include \"i\" %}{% </w> %}{% endcomponent %}{{ <r /> }}".into()), ("i", "{{ <r /> }}".into())],
+                "component-recursion-through-include-and-block" => vec![("t", "{% component r() %}{% include \"c\" %}{% endcomponent %}{{ <r /> }}".into()), ("p", "P{% block a %}{% endblock %}".into()), ("c", "{% extends \"p\" %}{% block a %}{{ <r /> }}{% endblock %}".into())],
+                "component-recursion-through-two-includes" => vec![("t", "{% component r() %}{% include \"i\" %}{% endcomponent %}{{ <r /> }}".into()), ("i", "{% for q in [1] %}{% include \"j\" %}{% endfor %}".into()), ("j", "{% set c %}{{ <r /> }}{% endset %}{{ c }}".into())],
                 _ => vec![("t", "{% component w() %}{{ body }}{% endcomponent %}{% component r() %}{% <w> %}{{ <r /> }}{% </w> %}{% endcomponent %}{{ <r /> }}".into())],
             };
             if dump {
